@@ -214,6 +214,28 @@ fn record(cell: &Cell, rep: &mut Report) {
         }
     }
     unreadable_copy_cases(cell, &run, rep);
+    // a copy that sits in its level's secondary shard, again with keys whose two hash images coincide (the secondary
+    // shard then comes from the distinctness fix-up, wrapping around for the last shard)
+    if cell.contents.iter().any(|&c| c >= 3) && KEY_VARIANT.with(|k| k.get()) == 0 {
+        for variant in [1u8, 2] {
+            KEY_VARIANT.with(|k| k.set(variant));
+            let r2 = run_cell(cell);
+            KEY_VARIANT.with(|k| k.set(0));
+            rep.evaluations += 1;
+            rep.states += 1;
+            rep.traces += 1;
+            rep.transitions += r2.trace.len() as u64;
+            rep.count("coinciding_image_cells", 1);
+            let mut seen = std::collections::BTreeSet::new();
+            for (sig, msg) in check(&r2) {
+                if seen.insert(sig.clone()) {
+                    let mut case = cell.to_json();
+                    case["key_variant"] = serde_json::json!(variant);
+                    rep.violation(format!("checker:{}", sig), format!("{} [key variant {}]: {}", cell.to_json(), variant, msg), case);
+                }
+            }
+        }
+    }
 }
 
 /// Copies of very different sizes: the library's byte-equality checkers must reject a first copy
@@ -294,7 +316,7 @@ pub fn run(_tier: Tier, shard: Shard, rep: &mut Report) {
         appears in the checker's invocation log, errors/panics reach the caller, no checker => later levels not opened and populate \
         not called on an accepted hit; for every successful checker cell, each redundant copy in a read-only level is made \
         unreadable in turn (its open fails with EACCES / EIO): the lookup must then not succeed; copies of very different sizes (first copy empty or cut at 1, 4096, 65536, 131072 \
-        bytes of a 131077-byte value, and the reverse) through the library's own checkers. Non-trivial = checker configured and >= 2 copies present."
+        bytes of a 131077-byte value, and the reverse) through the library's own checkers; cells with a copy in a secondary shard again with keys whose two hash images coincide (first shard, and last shard with the fix-up wrapping). Non-trivial = checker configured and >= 2 copies present."
         .into();
     rep.assumptions = vec!["checker invocations are identified by the (dev, inode) of both file arguments".into()];
     let all = cells();
@@ -317,5 +339,6 @@ pub fn replay(case: &Value, rep: &mut Report) {
         return;
     }
     let cell = case.get("cell").unwrap_or(case);
+    // (key variants are re-run by record itself)
     record(&Cell::from_json(cell), rep);
 }
